@@ -14,7 +14,10 @@ from mc.enum import deviations, GEN_MENUS, resolve_gen_options
 EPS = np.finfo(float).eps
 LEVEL = 'exploration'
 
-XS = {'a': 0.7, 'b': -3.0, 'z': 0.0, 'c': 50.0}
+XS = {'a': 0.7, 'b': -3.0, 'z': 0.0, 'c': 50.0,
+      # huge coordinates: small steps fall below the spacing of the floats at x (x + h == x is admissible, the other
+      # side of x is not)
+      'N': -1e15, 'P': 1e15}
 
 
 def make_x(tag, dim):
@@ -227,7 +230,7 @@ def enumerate_cases(ctx):
     cfgs = configs(ctx)
     gens = generators(ctx)
     dims = [1, 2, 3] if ctx.quick else [1, 2, 3, 4, 5]
-    xtags = ctx.rotate(['a', 'b', 'z', 'c'], 2) if ctx.quick else ['a', 'b', 'z', 'c']
+    xtags = (ctx.rotate(['a', 'b', 'z', 'c'], 2) + ['N', 'P']) if ctx.quick else ['a', 'b', 'z', 'c', 'N', 'P']
     cases = []
     for cfg in cfgs:
         cls = cfg[0]
